@@ -66,7 +66,7 @@ Values ==
      Imml("andi", "bare", 8, 8, "L1", 0), Imml("lw", "bare", 8, 2, "L2", 0),
      Lil(9, "bare", "L1", 0), Lil(5, "pos", "L2", Big), Lil(5, "pos", "L1", -2054), Lil(9, "pos", "L2", -2050),
      Lil(9, "off", "L1", 0), Lil(5, "off", "L2", 0), Lil(8, "pos", "L1", -2056), Pins("mv", 9, 10),
-     Imml("addi", "neg", 8, 0, "L1", 2055), Lil(9, "neg", "L2", 100), Dw("neg", "L1", 70000),
+     Imml("addi", "neg", 8, 0, "L1", 2055), Lil(9, "neg", "L2", 100), Dw("neg", "L1", 70000), Lil(9, "neg", "L1", 2051),
      Dw("bare", "L1", 0), Dw("pos", "L2", Big), Dw("off", "L1", 0),
      Pj("call", "L1"), Li(9, 4660, 22136), Br("beq", 8, 0, "L2"),
      Align(4), Align(8), Data(1) >> \o GapItems
